@@ -29,9 +29,9 @@ VARIABLES pool,     \* [id -> [st, rh, queued, held, outs, sat, sub, efail, sfai
           jobs,     \* [<<id, sub>> -> [script, pos]]  jobs that exist in the world
           net,      \* [<<id, sub>> -> Seq(msg)]  messages sent by a job, not yet delivered
           acks,     \* set of <<id, sub, ok>>: submit command executed, callback not yet delivered
-          stopped,  \* "no" | "auto" | "stalled"
+          stopped,  \* "no" | "auto" | "stalled" | "down" (stopped by request or killed; can be restarted)
           fb,       \* remaining fault budget [dup, crash]
-          db,       \* committed database image [pool, outs]  (survives a crash)
+          db,       \* committed database image [has, pool, tohold, holdpt, stopcmd]  (survives stop and crash)
           done,     \* history: completed outputs <<task, point, output>>
           ran,      \* history: set of [id, sub, ready, held, seqclash]  one per job preparation
           futseen,  \* [task -> largest future-trigger offset seen so far for that task definition]
@@ -210,7 +210,7 @@ ReleaseQueue(qn) ==
         /\ pool' = Prepare(pool, ids)
         /\ q' = [q EXCEPT ![qn] = SelectSeq(@, LAMBDA i : i \notin ids)]
         /\ cmds' = cmds \cup {<<i, pool[i].sub + 1>> : i \in ids}
-        /\ ran' = ran \cup {[id |-> i, sub |-> pool[i].sub + 1,
+        /\ ran' = ran \cup {[id |-> i, sub |-> pool[i].sub + 1, n |-> Cardinality(ran),
                                ready |-> ReadyByGraph(W, Name(i), Pt(i), done),
                                held |-> pool[i].held,
                                beyond |-> Pt(i) > StopPt, retry |-> pool[i].sub > 0,
@@ -231,7 +231,7 @@ ReleaseQueues ==
         /\ pool' = Prepare(pool, ids)
         /\ q' = [qn \in QNames |-> SelectSeq(q[qn], LAMBDA i : i \notin ids)]
         /\ cmds' = cmds \cup {<<i, pool[i].sub + 1>> : i \in ids}
-        /\ ran' = ran \cup {[id |-> i, sub |-> pool[i].sub + 1,
+        /\ ran' = ran \cup {[id |-> i, sub |-> pool[i].sub + 1, n |-> Cardinality(ran),
                                ready |-> ReadyByGraph(W, Name(i), Pt(i), done),
                                held |-> pool[i].held,
                                beyond |-> Pt(i) > StopPt, retry |-> pool[i].sub > 0,
@@ -258,7 +258,8 @@ EnvLaunch(c) ==
 EnvJobStep(j) ==
   /\ j \in DOMAIN jobs /\ jobs[j].pos < Len(jobs[j].script) /\ Faults.net
   /\ jobs' = [jobs EXCEPT ![j].pos = @ + 1]
-  /\ net' = [net EXCEPT ![j] = Append(@, jobs[j].script[jobs[j].pos + 1])]
+  /\ net' = IF stopped = "down" THEN net       \* nobody listens: the message is lost (a poll finds out later)
+            ELSE [net EXCEPT ![j] = Append(@, jobs[j].script[jobs[j].pos + 1])]
   /\ UNCHANGED <<pool, rhl, rhbase, q, cmds, acks, stopped, fb, db, done, ran, futseen, maxfut>>
   /\ UNCHANGED <<tohold, holdpt, stopcmd, cb>>
 
@@ -389,6 +390,68 @@ CmdStopPoint(p) ==
   /\ UNCHANGED <<rhbase, cmds, jobs, net, acks, stopped, fb, db, done, ran, futseen, maxfut, tohold, holdpt>>
 
 -----------------------------------------------------------------------------
+(* ----------------------- database, stop, crash, restart ----------------- *)
+DbImage == [has |-> TRUE, pool |-> pool, tohold |-> tohold, holdpt |-> holdpt, stopcmd |-> stopcmd]
+EmptyQs == [n \in QNames |-> <<>>]
+NoNet == [j \in DOMAIN net |-> <<>>]
+
+(* WorkflowDatabaseManager.process_queued_ops: the state is committed (end of every main-loop iteration, and *)
+(* at a few other places; the model lets it happen at any time)                                             *)
+Commit ==
+  /\ stopped = "no" /\ fb.crash > 0 /\ db # DbImage      \* (the image only matters while a crash can still happen)
+  /\ db' = DbImage
+  /\ UNCHANGED <<pool, rhl, rhbase, q, cmds, jobs, net, acks, stopped, fb, done, ran, futseen, maxfut, tohold, holdpt, stopcmd, cb>>
+
+(* cylc stop --now: the process pool is drained (pending commands run and their callbacks are processed),     *)
+(* everything is committed, the process exits; jobs carry on, what they send meanwhile is lost               *)
+StopNow ==
+  /\ stopped = "no" /\ cb > 0 /\ cmds = {} /\ acks = {}
+  /\ db' = DbImage
+  /\ stopped' = "down" /\ cb' = cb - 1
+  /\ pool' = <<>> /\ q' = EmptyQs /\ net' = NoNet /\ rhl' = NoPoint /\ rhbase' = NoPoint /\ maxfut' = 0
+  /\ UNCHANGED <<cmds, jobs, acks, fb, done, ran, futseen, tohold, holdpt, stopcmd>>
+
+(* the scheduler process dies: nothing is committed, commands in the process pool and their results are gone *)
+Crash ==
+  /\ stopped = "no" /\ fb.crash > 0
+  /\ fb' = [fb EXCEPT !.crash = @ - 1]
+  /\ stopped' = "down"
+  /\ pool' = <<>> /\ q' = EmptyQs /\ net' = NoNet /\ cmds' = {} /\ acks' = {}
+  /\ rhl' = NoPoint /\ rhbase' = NoPoint /\ maxfut' = 0
+  /\ UNCHANGED <<jobs, db, done, ran, futseen, tohold, holdpt, stopcmd, cb>>
+
+(* restart: the pool is rebuilt from the database (TaskPool.load_db_task_pool_for_restart): a task that was    *)
+(* preparing comes back waiting with its previous submit number; every unfinished task comes back runahead-   *)
+(* limited, all unqueued; the hold list, hold point and stop point come back                                   *)
+Restored(r) == [r EXCEPT !.st = IF r.st = "preparing" THEN "waiting" ELSE @,
+                         !.sub = IF r.st = "preparing" THEN @ - 1 ELSE @,
+                         \* (all tasks load runahead-limited, except failed / succeeded / expired ones - submit-failed stays limited)
+                         !.rh = r.st \notin {"failed", "succeeded", "expired"}, !.queued = FALSE]
+Restart ==
+  /\ stopped = "down" /\ db.has
+  /\ stopped' = "no"
+  /\ pool' = [i \in DOMAIN db.pool |-> Restored(db.pool[i])]
+  /\ tohold' = db.tohold /\ holdpt' = db.holdpt /\ stopcmd' = db.stopcmd
+  \* (a new process: the task definitions' lazily filled future offsets start afresh)
+  /\ futseen' \in {f \in [W.tasks -> 0..Max({0} \cup UNION {PosOffsets(t) : t \in W.tasks})] :
+                       \A t \in W.tasks : f[t] = 0 \/ f[t] \in PosOffsets(t)}
+  /\ maxfut' \in 0..MaxFutWith(db.pool, futseen')
+  /\ UNCHANGED <<rhl, rhbase, q, cmds, jobs, net, acks, fb, db, done, ran, cb>>
+
+(* a poll (after a restart, or routine) reports what the job has done: the custom messages it has sent and its *)
+(* latest status                                                                                              *)
+Poll(j, k) ==
+  /\ (Faults.crash > 0 \/ CmdBudget > 0)      \* (configurations without stop / crash / commands do not poll)
+  /\ stopped = "no" /\ j \in DOMAIN jobs /\ k \in 1..jobs[j].pos
+  /\ j[1] \in DOMAIN pool /\ pool[j[1]].sub = j[2] /\ Active(pool[j[1]])
+  /\ (k = jobs[j].pos \/ jobs[j].script[k] \in W.customs[Name(j[1])])
+  /\ LET res == Process(j[1], jobs[j].script[k], "polled", j[2])
+     IN /\ pool' = res.pool /\ done' = done \cup res.newdone
+        /\ \E fs \in FutChoices : futseen' = fs /\ \E r \in res.rh[fs] : rhl' = r.l /\ rhbase' = r.b /\ maxfut' = r.m
+  /\ UNCHANGED <<q, cmds, jobs, net, acks, stopped, fb, db, ran>>
+  /\ tohold' = HoldAfter /\ UNCHANGED ctl
+
+-----------------------------------------------------------------------------
 (* ------------------------- shutdown and stall --------------------------- *)
 Quiet == cmds = {} /\ acks = {} /\ \A j \in DOMAIN jobs : jobs[j].pos = Len(jobs[j].script) /\ net[j] = <<>>
 NothingToDo ==
@@ -433,7 +496,7 @@ Init ==
   /\ fb = [dup |-> Faults.dup, crash |-> Faults.crash]
   /\ done = {} /\ ran = {}
   /\ pool = LoadFirst(<<>>, W.tasks)       \* TaskPool.load_from_point
-  /\ db = [pool |-> {}]
+  /\ db = [has |-> FALSE, pool |-> <<>>, tohold |-> {}, holdpt |-> NoPoint, stopcmd |-> NoPoint]
   /\ futseen \in {f \in [W.tasks -> 0..Max({0} \cup UNION {PosOffsets(t) : t \in W.tasks})] :
                       \A t \in W.tasks : f[t] = 0 \/ f[t] \in PosOffsets(t)}     \* (start-up creates proxies too)
   /\ maxfut \in 0..MaxFutWith(pool, futseen)
@@ -454,6 +517,8 @@ Next ==
   \/ \E i \in tohold : CmdRelease(i)
   \/ \E p \in W.icp..W.fcp : CmdHoldPoint(p) \/ CmdStopPoint(p)
   \/ CmdReleaseHoldPoint
+  \/ Commit \/ StopNow \/ Crash \/ Restart
+  \/ \E j \in DOMAIN jobs : \E k \in 1..jobs[j].pos : Poll(j, k)
 
 Fairness == WF_vars(Next)
 Spec == Init /\ [][Next]_vars
@@ -549,6 +614,6 @@ Terminates == <>(stopped # "no")
 (* C01/C04: when every job script completes its task, the run shuts down by itself *)
 CompletableShutsDown == <>(stopped = "auto")
 
-TypeOK == /\ stopped \in {"no", "auto", "stalled"}
+TypeOK == /\ stopped \in {"no", "auto", "stalled", "down"}
           /\ \A i \in DOMAIN pool : pool[i].st \in {"waiting", "preparing", "submitted", "running", "succeeded", "failed", "submit-failed", "expired"}
 =============================================================================
